@@ -1,7 +1,42 @@
-import WrglModel.Model.Sorter
-import WrglModel.Spec.Sorter
-import WrglModel.Spec.TableInv
+/-
+C02 — A table's identity depends only on its logical content.
+Property theorems only. Model: Model/TableId.lean (table object bytes, block and block-index sums,
+`tableId = H (table bytes)`), Model/Sorter.lean (ingest). `H` (meow) is a parameter.
+-/
+import WrglModel.Model.TableId
+import WrglModel.Lemmas.C01
 import WrglModel.Gen.Facts
 namespace Wrgl
-theorem C02_placeholder : True := trivial
+
+/-- Same columns, same key, same set of rows (keys unique) ⇒ same identifier, regardless of the
+    order of rows in the file, the run size / number of spill files and the sort used. No
+    assumption on the hash is needed. -/
+theorem C02_same_content_same_id (H : Bytes → Bytes) (sortPerm : List Bytes → List Nat) (mc : Nat)
+    (s1 s2 : List Row → List Row) (pk : List Nat)
+    (h1 : IsSort pk s1) (h2 : IsSort pk s2) (w : Nat) (rs1 rs2 : Nat)
+    (columns : Row) (rows1 rows2 : List Row) (t1 t2 : StoredTable) (hw : RowsWF w pk rows1)
+    (hperm : rows1.Perm rows2) (huniq : rows1.Pairwise (fun a b => keyOf pk a ≠ keyOf pk b))
+    (e1 : ingestTable s1 Facts.blockSize Facts.addRowMaxCell rs1 columns pk rows1 = .ok t1)
+    (e2 : ingestTable s2 Facts.blockSize Facts.addRowMaxCell rs2 columns pk rows2 = .ok t2) :
+    tableId H sortPerm mc t1 = tableId H sortPerm mc t2 :=
+  tableId_config_independent H sortPerm mc s1 s2 pk h1 h2 Facts.blockSize w _ _ rs1 rs2 columns rows1 rows2 t1 t2 hw hperm huniq e1 e2
+
+/-- If the hash is injective on the strings hashed, equal identifiers mean equal column list
+    (names and order), equal key and equal rows: a differing cell, column name, column order or key
+    choice gives a different identifier. -/
+theorem C02_injective (H : Bytes → Bytes) (hinj : ∀ a b, H a = H b → a = b)
+    (sortPerm : List Bytes → List Nat) (t1 t2 : StoredTable) (id : Bytes)
+    (hwf1 : (tableObjOf H sortPerm 65535 t1).WF) (hwf2 : (tableObjOf H sortPerm 65535 t2).WF)
+    (hr1 : ∀ b ∈ t1.blocks, b.length < 2 ^ 32 ∧ ∀ r ∈ b, r.length < 2 ^ 32 ∧ ∀ c ∈ r, c.length ≤ 65535)
+    (hr2 : ∀ b ∈ t2.blocks, b.length < 2 ^ 32 ∧ ∀ r ∈ b, r.length < 2 ^ 32 ∧ ∀ c ∈ r, c.length ≤ 65535)
+    (e1 : tableId H sortPerm 65535 t1 = .ok id) (e2 : tableId H sortPerm 65535 t2 = .ok id) :
+    t1.columns = t2.columns ∧ t1.pk = t2.pk ∧ t1.blocks = t2.blocks :=
+  tableId_injective H hinj sortPerm 65535 (by decide) t1 t2 id hwf1 hwf2 hr1 hr2 e1 e2
+
+/-- Re-committing unchanged data is detected: the commit command compares table identifiers, which
+    by the two theorems above are equal exactly when the logical tables are. (The comparison itself,
+    `bytes.Equal(sum, oldSum)` in commitIfBranchFileHasChanged, is observed by the runs.) -/
+theorem C02_no_change_detected (id1 id2 : Bytes) : (id1 == id2) = true ↔ id1 = id2 := by
+  simp
+
 end Wrgl
